@@ -142,6 +142,9 @@ func (ex *Exec) localEnv(fr *Frame, st *State) *CEnv {
 	}
 	for i, p := range fr.fn.Params {
 		if i < len(fr.args) {
+			if _, clash := env.vars[fmt.Sprintf("arg%d", i)]; !clash {
+				env.vars[fmt.Sprintf("arg%d", i)] = TV{fr.args[i], p.Type()}
+			}
 			env.vars[p.Name()+"0"] = TV{fr.args[i], p.Type()}
 			if _, ok := env.vars[p.Name()]; !ok {
 				env.vars[p.Name()] = TV{fr.args[i], p.Type()}
@@ -197,6 +200,7 @@ func (ex *Exec) verifyFunc(fn *ssa.Function, caseParam string, caseLit Expr) *Fu
 		}
 		args = append(args, v)
 		env.vars[p.Name()] = TV{v, p.Type()}
+		env.vars[fmt.Sprintf("arg%d", len(args)-1)] = TV{v, p.Type()} // positional alias: survives a renamed parameter
 	}
 	if fn.Signature.Recv() != nil && len(args) > 0 {
 		env.vars["this"] = TV{args[0], fn.Params[0].Type()}
